@@ -17,10 +17,15 @@ def reachability_witness(spec, jobs, tier):
         return {"ran": False}
     by_h = {}
     for j in sorted(jobs, key=lambda j: j.get("weight", 1)):
-        by_h.setdefault(j["harness"], j)
+        # one twin per harness and schedule class / lemma instance (the cheapest job of each)
+        p = j["params"]
+        key = (j["harness"], p.get("cls") or p.get("inst") or p.get("kind") or p.get("trajectory"))
+        if p.get("n") == 1 and j["harness"] == "stream":
+            continue
+        by_h.setdefault(key, j)
     out = {"ran": True, "twins": []}
     twin_jobs = []
-    for h, j in by_h.items():
+    for (h, _), j in by_h.items():
         tj = dict(j)
         tj["harness"] = h + "+twin"
         tj["name"] = j["name"] + "+twin"
@@ -28,7 +33,7 @@ def reachability_witness(spec, jobs, tier):
         tj["max_paths"] = None
         tj["validate"] = False
         twin_jobs.append(tj)
-    with mp.get_context("fork").Pool(min(8, len(twin_jobs))) as pool:
+    with mp.get_context("fork").Pool(min(16, len(twin_jobs))) as pool:
         res = pool.map(_twin_job, twin_jobs)
     for tj, d in zip(twin_jobs, res):
         hit = [f for f in d["failures"] if f["tag"].startswith("VACUITY") and f["reproduced"]]
